@@ -131,6 +131,10 @@ NEEDS = {
  'C20-i': ('C20', [], 'Buffer.__next__ refills one item per recursive call: a forward jump over about 1000 unbuffered items raises RecursionError'),
  'C06-i': ('C06', ['C19'], 'a new `\\verb` tokenizer scans for its delimiter without an end-of-input guard: an unterminated `\\verb|foo` at the end of the input leaks AttributeError'),
  'C10-i': ('C10', ['C19'], 'a `%` directly inside the brace argument of `\\url` is not a comment (percent-encoded URLs): the payload after it is live'),
+ 'C02-j': ('C02', ['C09'], 'read_item ends an \\item at a `]` with no earlier `[` in its body (posing as support for \\item inside an optional argument): `\\item the interval (0,1] is ...` loses everything from the `]` on to the enclosing list; the printed text is unchanged'),
+ 'C04-j': ('C04', ['C03'], 'TexNode.__getitem__ normalises a negative index with len(expr.all) but looks it up in the whitespace-filtered contents: node[-j] on a node with blank-only text pieces raises IndexError or returns an element too far right'),
+ 'C13-j': ('C13', ['C19'], 'tokenize_string drops NUL/DEL inside a text run as well (tokenize_ignore drops them at token boundaries only): the text token is shorter than its source span and search_regex reports every later match of that run too far left'),
+ 'C16-j': ('C16', ['C08'], 'read_env skips a leading blank of the body of a MATH environment: `\\begin{equation} [0,1] ..` is printed without the blank on save 1 and `[0,1]` becomes an argument of the environment on load 2, which drops the next blank on save 2'),
 }
 
 
